@@ -131,6 +131,13 @@ func workerMain(propID string) {
 
 func runCaseRecover(p *Prop, orc *Oracle, data json.RawMessage) (oc Outcome) {
 	before := orc.Calls
+	t0 := time.Now()
+	defer func() {
+		if d := time.Since(t0); d > 2*time.Second {
+			oc.Tags = append(oc.Tags, fmt.Sprintf("slow>%ds", int(d.Seconds())/2*2))
+			fmt.Fprintf(os.Stderr, "slow case (%v): %s\n", d, oc.Sample)
+		}
+	}()
 	defer func() {
 		if r := recover(); r != nil {
 			oc.Fail("panic", "no-panic", panicEntry(), "panic: %v | %s", r, panicSite())
